@@ -26,6 +26,7 @@ type Chunk struct {
 	IL     int             `json:"il,omitempty"`
 	Size   string          `json:"size,omitempty"`
 	Name   int             `json:"name,omitempty"`
+	NameCh int             `json:"namech,omitempty"` // when set: the character every other position of the profile name holds
 	Method int             `json:"method,omitempty"`
 	Z      string          `json:"z,omitempty"`
 	Pid    int             `json:"pid,omitempty"`
@@ -317,6 +318,9 @@ func buildPNG(c Case, variant int) Built {
 			name := bytes.Repeat([]byte{'n'}, a.Name)
 			for q := 1; q < len(name); q += 2 {
 				name[q] = byte(0xA1 + (q*37+variant)%95)
+				if a.NameCh != 0 {
+					name[q] = byte(a.NameCh)
+				}
 			}
 			z := zstreamFor(a.Z, a.Pid, variant)
 			var d []byte
